@@ -29,6 +29,16 @@ vlib/ref_hci.py, an independent encoder/decoder for the declared field layouts):
                spec parameter holding the octets at the spec offset, re-serialise
                unchanged, and the object built from those attributes serialises to the
                same spec-length octets
+  layout   (L) per command / event / LE sub-event class stated in vlib/ref_hci_layout.py (a table
+               of parameter order, width, signedness and kind per op code / event code / sub-event
+               code written from the specification, not from bumble): (a) specification-shaped
+               parameter octets (profiles: all octets distinct, all ones / -1, top bit / most
+               negative, small values, random boundary values; address type octets 0/1 kept apart
+               from neighbouring SIDs and handles) -> from_bytes -> every field the class exposes
+               holds the reference value (integers incl. sign, addresses incl. the type taken from
+               the preceding parameter), re-serialises unchanged; (b) the object built from the
+               field values serialises to the reference octets, compared width by width.
+               Classes not covered are listed in coverage.layout_spec_uncovered with the reason
   data     (G) ACL / SCO / ISO headers: all flag combinations x boundary handles x
                boundary lengths, ISO with/without time stamp and SDU header,
                packet status 0..3, both directions
@@ -40,6 +50,7 @@ import random
 
 from vlib import ref_hci as ref
 from vlib import ref_hci_rp as rp_spec
+from vlib import ref_hci_layout as lay
 from vlib.result import R
 
 ID = 'C01'
@@ -54,7 +65,9 @@ RULE = ('registries are enumerated at run time (commands incl. vendor, events, L
         'Generic/unknown-code, Command Complete and data-packet cases: distinct = distinct '
         '(kind, code or flag combination, length). Clause H: every sync command found at run time x N '
         'spec-shaped return-parameter blocks (status 0, random octets in every spec field, array counts '
-        '0/1/2/3/as-many-as-fit); distinct = (command, array counts / rest length).')
+        '0/1/2/3/as-many-as-fit); distinct = (command, array counts / rest length). Clause L: every registered '
+        'class with an entry in vlib/ref_hci_layout.py x 4 fixed value profiles + N random boundary instances, both '
+        'directions; distinct = (class, profile or lengths of the first parameters).')
 ASSUMPTIONS = [
     'the declared field metadata (spec, list_begin/list_end, parser names, the size/byteorder captured by '
     'SpecableEnum/SpecableFlag.type_spec) is taken as the intended layout; a class whose declaration is '
@@ -71,6 +84,11 @@ ASSUMPTIONS = [
     'Vol 4 Part E 7.x, the Android HCI requirements and Zephyr hci_vs.h: widths and order only (signedness and '
     'value ranges are not judged); a sync command found at run time without an entry in that table is listed in '
     'coverage.return_parameter_spec_layout_missing and only gets the declared-vs-registered class comparison',
+    'command / event / sub-event parameter layouts (clause L) are the ones written down in vlib/ref_hci_layout.py from '
+    'Core Vol 4 Part E 7.1-7.8 (order, width, signedness, kind; arrays interleaved per 5.2); parameter NAMES are the '
+    'attribute names of the classes; a class whose names differ from the table, or that the table does not state, is '
+    'listed in coverage.layout_spec_uncovered and gets clauses A-D only; address type is judged only for an address '
+    'whose type is the preceding parameter; PHY masks counting per-PHY items use bits 0..2 only',
     'parameter blocks are kept <= 255 octets; ISO layout per Core Vol 4 Part E 5.4.5 '
     '(ISO_SDU_Length bits 0-11, Packet_Status_Flag bits 14-15)',
 ]
@@ -81,14 +99,18 @@ MIN_EVENTS = {
               'iso_status_checks': 100, 'synthetic_all_paths_roundtrips': 1000,
               'cmdcomplete_error_status_checks': 2000, 'sweep_instances': 4000,
               'rp_declared_class_checks': 2000, 'rp_spec_layout_checks': 5000, 'rp_spec_rebuilds': 4500,
-              'rp_spec_field_checks': 4500},
+              'rp_spec_field_checks': 4500, 'layout_spec_classes_covered': 270, 'layout_spec_parse_checks': 15000,
+              'layout_spec_build_checks': 15000, 'layout_spec_field_compares': 60000,
+              'layout_spec_width_compares': 60000},
     'thorough': {'build_roundtrips': 2500000, 'frombytes_roundtrips': 2500000, 'layout_checks': 2500000,
                  'rebuilds': 5000000, 'generic_checks': 30000, 'cmdcomplete_checks': 30000,
                  'data_checks': 30000, 'classes_populated': 270, 'pad_roundtrips': 60000,
                  'iso_status_checks': 1000, 'synthetic_all_paths_roundtrips': 20000,
                  'cmdcomplete_error_status_checks': 20000, 'sweep_instances': 65536,
                  'rp_declared_class_checks': 10000, 'rp_spec_layout_checks': 100000, 'rp_spec_rebuilds': 90000,
-                 'rp_spec_field_checks': 90000},
+                 'rp_spec_field_checks': 90000, 'layout_spec_classes_covered': 270, 'layout_spec_parse_checks': 500000,
+                 'layout_spec_build_checks': 500000, 'layout_spec_field_compares': 2000000,
+                 'layout_spec_width_compares': 2000000},
 }
 CASE_TIMEOUT = 900
 EXHAUSTIVE_NOTE = ('enumerated completely in every run: all registered classes of every registry; all unregistered '
@@ -119,6 +141,8 @@ def plan(tier, seed):
         cases.append({'kind': 'cmdcomplete', 'seed': seed * 1000003 + i, 'per': cc_per})
     for i in range(ndata):
         cases.append({'kind': 'data', 'seed': seed * 1000003 + i, 'random': data_rand})
+    for i in range(16 if tier == 'quick' else 96):
+        cases.append({'kind': 'layout', 'seed': seed * 1000003 + i, 'per': 2 if tier == 'quick' else 24})
     step = 16 if tier == 'quick' else 1
     for i in range(16):
         # quick: a different residue class per seed, so that seeds together cover all values
@@ -849,6 +873,10 @@ def census_case(case, r: R):
     r.extra.setdefault('return_parameter_spec_layout_missing', [])
     r.extra.setdefault('return_parameter_classes_undeclared', [])
     r.extra.setdefault('classes_unpopulated', [])
+    covered, uncovered = layout_table(reg)
+    r.ev('layout_spec_classes_covered', len(covered))
+    r.ev('layout_spec_classes_uncovered', len(uncovered))
+    r.extra['layout_spec_uncovered'] = list(uncovered)
     r.evals()
     r.sample = {'kind': 'census', 'registries': kinds, 'field_paths': tags}
 
@@ -1327,6 +1355,277 @@ def cmdcomplete_case(case, r: R):
 
 
 # =============================================================================
+# layout: clause L -- command / event / sub-event parameters vs the specification's layout
+# =============================================================================
+_LAYOUT = None
+
+
+def _name_shape(struct):
+    return (frozenset(x for x in struct if not isinstance(x, list)),
+            frozenset(frozenset(x) for x in struct if isinstance(x, list)))
+
+
+def layout_table(reg):
+    """[(entry, tokens)] for every registered class the specification table states and whose
+    attribute names are the table's; everything else goes to `uncovered` with the reason."""
+    global _LAYOUT
+    if _LAYOUT is not None:
+        return _LAYOUT
+    covered, uncovered = [], []
+    for e in reg['entries']:
+        if e.kind == 'codec':
+            continue
+        text = lay.layout_text(e.kind, e.code)
+        if text is None:
+            why = lay.NOT_STATED.get((e.kind, e.code), 'no entry in vlib/ref_hci_layout.py')
+            uncovered.append(f'{e.kind}:{e.code:#06x} {e.name}: {why}')
+            continue
+        toks = lay.parse(text)
+        hw = ref.handwritten(e.name)
+        if hw is not None:
+            # classes outside the field language: the attribute / keyword names only
+            theirs = [[x.name for x in d.sub] if d.kind in ('group', 'maskgroup') else d.name for d in hw]
+        else:
+            theirs = ref.structure_of_fields(getattr(e.cls, 'fields', None) or [])
+        mine = lay.names(toks)
+        ok = _name_shape(mine) == _name_shape(theirs)
+        for t in toks:
+            if ok and t.kind == 'group' and t.obj:
+                item = getattr(e.cls, 'Report', None)
+                got = [f.name for f in dataclasses.fields(item)] if dataclasses.is_dataclass(item) else None
+                if got is None or set(got) != {s.name for s in t.sub}:
+                    ok = False
+                    theirs = got
+                    mine = [s.name for s in t.sub]
+        if not ok:
+            uncovered.append(f'{e.kind}:{e.code:#06x} {e.name}: parameter names differ, class exposes {theirs}, '
+                             f'specification has {mine}')
+            continue
+        covered.append((e, toks))
+    _LAYOUT = (covered, uncovered)
+    return _LAYOUT
+
+
+def _lay_cmp(hci, t, want, got, path):
+    """None when `got` (an attribute of the parsed object) is what the specification puts there,
+    else (path, message)."""
+    k = t.kind
+
+    def show(x):
+        return x.hex() if isinstance(x, (bytes, bytearray)) else repr(x)
+
+    if got is _MISSING:
+        return path, 'attribute missing'
+    if k in ('u', 's', 'x'):
+        if isinstance(got, bool) or not isinstance(got, int):
+            return path, f'expected an integer, got {type(got).__name__} {got!r}'
+        if k == 'x':
+            if (int(got) - want) % (1 << (8 * t.size)):
+                return path, f'{int(got)} != {want} (mod 2^{8 * t.size})'
+        elif int(got) != want:
+            return path, f'{int(got)} != specification value {want} ({"signed" if k == "s" else "unsigned"} {t.size} octets)'
+        return None
+    if k in ('addr', 'taddr'):
+        if not hasattr(got, 'address_bytes'):
+            return path, f'expected an Address, got {type(got).__name__}'
+        if bytes(got.address_bytes) != want[0]:
+            return path, f'address octets {bytes(got.address_bytes).hex()} != {want[0].hex()}'
+        if k == 'taddr' and int(got.address_type) != want[1]:
+            return path + '.type', f'address type {int(got.address_type)} != {want[1]} (the octet before the address)'
+        return None
+    if k in ('bytes', 'v', 'rest', 'lpv'):
+        try:
+            gb = bytes(got)
+        except Exception:
+            return path, f'expected bytes, got {type(got).__name__}'
+        if isinstance(got, int) or gb != want:
+            return path, f'{show(gb)[:60]} != {show(want)[:60]}'
+        return None
+    if k == 'codec':
+        try:
+            g3 = (int(got.codec_id), int(got.company_id), int(got.vendor_specific_codec_id))
+        except Exception:
+            return path, f'expected a coding format, got {got!r}'
+        return None if g3 == want else (path, f'{g3} != {want}')
+    raise ValueError(k)
+
+
+def _lay_compare(hci, toks, values, obj, prefix=''):
+    for t in toks:
+        if t.kind in ('group', 'maskgroup'):
+            items = values[t.name]
+            if t.obj:
+                lst = getattr(obj, t.obj, _MISSING)
+                if not isinstance(lst, (list, tuple)) or len(lst) != len(items):
+                    return prefix + t.obj + '#count', f'{len(lst) if isinstance(lst, (list, tuple)) else lst!r} items, specification octets hold {len(items)}'
+                for i, item in enumerate(items):
+                    m = _lay_compare(hci, t.sub, item, lst[i], f'{prefix}{t.obj}.')
+                    if m:
+                        return m
+                continue
+            for s in t.sub:
+                lst = getattr(obj, s.name, _MISSING)
+                if not isinstance(lst, (list, tuple)) or len(lst) != len(items):
+                    return prefix + s.name + '#count', f'{len(lst) if isinstance(lst, (list, tuple)) else lst!r} items, specification octets hold {len(items)}'
+            for i, item in enumerate(items):
+                for s in t.sub:
+                    m = _lay_cmp(hci, s, item[s.name], getattr(obj, s.name)[i], prefix + s.name)
+                    if m:
+                        return m
+            continue
+        m = _lay_cmp(hci, t, values[t.name], getattr(obj, t.name, _MISSING), prefix + t.name)
+        if m:
+            return m
+    return None
+
+
+def _lay_to_bumble(hci, e, toks, values):
+    def one(t, v):
+        if t.kind == 'addr':
+            return hci.Address(v[0], hci.AddressType(0))
+        if t.kind == 'taddr':
+            return hci.Address(v[0], hci.AddressType(v[1]))
+        if t.kind == 'codec':
+            return hci.CodingFormat(hci.CodecID(v[0]), v[1], v[2])
+        return v
+    out = {}
+    for t in toks:
+        if t.kind in ('group', 'maskgroup'):
+            items = values[t.name]
+            if t.obj:
+                out[t.obj] = [e.cls.Report(**_lay_to_bumble(hci, e, t.sub, it)) for it in items]
+            else:
+                for s in t.sub:
+                    out[s.name] = [one(s, it[s.name]) for it in items]
+        else:
+            out[t.name] = one(t, values[t.name])
+    return out
+
+
+def _lay_culprit(hci, e, toks, values):
+    """Name of the integer parameter whose value the class refuses (found by setting one
+    integer at a time to 0), or 'unknown'."""
+    def variants(toks, values):
+        for t in toks:
+            if t.kind in ('u', 's', 'x') and values[t.name] != 0:
+                v = dict(values)
+                v[t.name] = 0
+                yield t.name, v
+            elif t.kind in ('group', 'maskgroup') and t.kind == 'group':
+                for s in t.sub:
+                    if s.kind in ('u', 's', 'x'):
+                        v = dict(values)
+                        v[t.name] = [dict(it, **{s.name: 0}) for it in values[t.name]]
+                        yield s.name, v
+    for name, v in variants(toks, values):
+        try:
+            bytes(e.cls(**_lay_to_bumble(hci, e, toks, v)))
+            return name
+        except Exception:
+            continue
+    return 'unknown'
+
+
+def _lay_show(values, limit=260):
+    def show(x):
+        if isinstance(x, (bytes, bytearray)):
+            return x.hex() if len(x) <= 16 else f'{x[:8].hex()}..({len(x)})'
+        if isinstance(x, tuple):
+            return '(' + ','.join(show(y) for y in x) + ')'
+        if isinstance(x, list):
+            return '[' + ','.join(show(y) for y in x[:3]) + (',..' if len(x) > 3 else '') + ']'
+        if isinstance(x, dict):
+            return '{' + ','.join(f'{k}={show(y)}' for k, y in x.items()) + '}'
+        return repr(x)
+    s = ', '.join(f'{k}={show(v)}' for k, v in values.items())
+    return s if len(s) <= limit else s[:limit] + '...'
+
+
+def layout_case(case, r: R):
+    reg = registries()
+    hci = reg['hci']
+    rng = random.Random(case['seed'] ^ 0x1A)
+    covered, uncovered = layout_table(reg)
+    r.extra.setdefault('layout_spec_uncovered', [])
+    for u in uncovered:
+        l = r.extra['layout_spec_uncovered']
+        if u not in l:
+            l.append(u)
+    seen = {}
+
+    def bad(key, detail):
+        # one parse finding and one build finding per class and case: the first profile (all octets
+        # distinct) names the parameter precisely, later profiles would only echo it in its neighbours
+        slot = tuple(key.split('/')[2:4])
+        if slot not in seen:
+            seen[slot] = 1
+            r.bad(key, detail)
+
+    sample = None
+    for e, toks in covered:
+        r.ev('layout_spec_class_visits')
+        base = f'layout/spec/{e.name}'
+        profiles = list(lay.PROFILES) + ['random'] * case['per']
+        for prof in profiles:
+            if not toks and prof != 'distinct':
+                continue
+            values, params, parts = lay.generate(rng, toks, prof, e.limit)
+            b = header(e, params)
+            what = f'{e.name} {prof}: specification-shaped parameters {params.hex()[:120]} ({_lay_show(values)})'
+            r.evals()
+            r.sig('layout', e.name, prof if prof != 'random' else tuple(len(p) for p in parts[:4]) + (len(params),))
+            if sample is None and toks and rng.random() < 0.01:
+                sample = {'kind': 'layout', 'class': e.name, 'profile': prof, 'bytes': b.hex()[:160], 'values': _lay_show(values, 200)}
+            # ---- (a) specification octets -> object: every exposed field is the reference value ----
+            r.ev('layout_spec_parse_checks')
+            r.ev('oracle_evals')
+            p = None
+            try:
+                p = hci.HCI_Packet.from_bytes(b)
+            except Exception as ex:
+                bad(f'{base}/parse/raises', f'{what}: from_bytes raised {type(ex).__name__}: {ex}')
+            if p is not None:
+                if type(p) is not e.cls:
+                    bad(f'{base}/parse/class', f'{what}: parsed as {type(p).__name__}')
+                else:
+                    r.ev('layout_spec_field_compares', len(parts))
+                    m = _lay_compare(hci, toks, values, p)
+                    if m:
+                        bad(f'{base}/parse/{m[0]}', f'{what}: field {m[0]}: {m[1]}')
+                    try:
+                        if bytes(p) != b:
+                            bad(f'{base}/parse/reserialise', f'{what}: re-serialises to {bytes(p).hex()[:120]}')
+                    except Exception as ex:
+                        bad(f'{base}/parse/reserialise', f'{what}: bytes(parsed) raised {type(ex).__name__}: {ex}')
+            # ---- (b) object built from the field values -> octets, width by width ------------------------
+            r.ev('layout_spec_build_checks')
+            r.ev('oracle_evals')
+            try:
+                b1 = bytes(e.cls(**_lay_to_bumble(hci, e, toks, values)))
+            except Exception as ex:
+                bad(f'{base}/build/raises/{_lay_culprit(hci, e, toks, values)}',
+                    f'{what}: building from the field values raised {type(ex).__name__}: {ex}')
+                continue
+            hl = header_len(e)
+            if b1[:hl] != b[:hl] and len(b1) - hl == len(params):
+                bad(f'{base}/build/header', f'{what}: header {b1[:hl].hex()} != {b[:hl].hex()}')
+                continue
+            got = b1[hl:]
+            r.ev('layout_spec_width_compares', len(parts))
+            for path, off, n, t in parts:
+                if got[off:off + n] != params[off:off + n]:
+                    bad(f'{base}/build/{path.split("].")[-1].split("#")[0] if "]." in path else path}',
+                        f'{what}: built octets {got[off:off + n].hex()[:40]} at offset {off} where the specification puts '
+                        f'{path} = {params[off:off + n].hex()[:40]} ({n} octets); built parameters {got.hex()[:120]}')
+                    break
+            else:
+                if len(got) != len(params) or b1[:hl] != b[:hl]:
+                    bad(f'{base}/build/length', f'{what}: built {len(got)} parameter octets {got.hex()[:120]}, header {b1[:hl].hex()}')
+    r.sample = sample or {'kind': 'layout', 'classes_covered': len(covered), 'classes_uncovered': len(uncovered)}
+
+
+
+# =============================================================================
 # data packets: clause G
 # =============================================================================
 HANDLES = (0, 1, 0x0EFF, 0x0FFF)
@@ -1507,6 +1806,8 @@ def run_case(case, r: R):
         data_case(case, r)
     elif k == 'sweep':
         sweep_case(case, r)
+    elif k == 'layout':
+        layout_case(case, r)
     else:
         raise ValueError(k)
 
@@ -1521,10 +1822,13 @@ LEVEL_TEXT = ('Every class found at run time in the command (incl. vendor), even
               'command gets Command Complete events with generated return parameters (success, error status '
               'only, error status full length), and return parameters laid out as the specification says (a '
               'per-op-code table independent of bumble) which must come back as the class the command declares, '
-              'field by field, and rebuild to the same octets; ACL/SCO/ISO headers are enumerated over all flag combinations '
+              'field by field, and rebuild to the same octets; every command / event / LE sub-event class stated in a per-code '
+              'table of the specification\'s parameter layout (order, width, signedness; independent of bumble) is parsed from '
+              'specification-shaped octets and built from field values under 4 fixed boundary profiles plus random ones, '
+              'every exposed field and every width compared (classes outside the table: coverage.layout_spec_uncovered); ACL/SCO/ISO headers are enumerated over all flag combinations '
               'x boundary handles x boundary lengths. Classes the generator cannot populate are listed in '
               'coverage.classes_unpopulated. Held = no refuting instance among those generated; sampling, not proof.')
-LEVEL_NOTE = ('Trusted: vlib/ref_hci_rp.py (return-parameter widths per op code, from the specification); vlib/ref_hci.py (the meaning of the field-spec language and the Core-spec header '
+LEVEL_NOTE = ('Trusted: vlib/ref_hci_layout.py (parameter order / width / signedness per op code, event code and LE sub-event code, from the specification); vlib/ref_hci_rp.py (return-parameter widths per op code, from the specification); vlib/ref_hci.py (the meaning of the field-spec language and the Core-spec header '
               'layouts, ~450 lines, self-checked encoder<->decoder on every instance), the declared field '
               'metadata of each class as the statement of its intended layout, CPython dataclasses. A class '
               'whose declaration is wrong but self-consistent is outside this check.')
